@@ -414,6 +414,11 @@ func runHistory(c *Ctx, im *Impl, r *Rng, hlen int, script []scripted) (conns []
 	}
 	prev := w.observe()
 	relayedSinceExpiry := map[string]bool{}
+	live := append([]string{}, conns...) // connections not yet lost
+	ownRow := map[string]float64{}       // what the node's own row must be
+	for _, cn := range conns {
+		ownRow[cn] = 1
+	}
 	for i := 0; i < hlen; i++ {
 		if script == nil && len(prev.Seen) > 0 && r.Chance(6) {
 			id := prev.Seen[r.Intn(len(prev.Seen))]
@@ -422,6 +427,30 @@ func runHistory(c *Ctx, im *Impl, r *Rng, hlen int, script []scripted) (conns []
 			steps = append(steps, step{Kind: "expire", ID: id, O: o})
 			kinds = append(kinds, "expire")
 			delete(relayedSinceExpiry, id)
+			prev = o
+			continue
+		}
+		if script == nil && len(live) > 0 && r.Chance(5) {
+			// the session to a neighbour ends: the connection and the two cost entries of the link go, what the
+			// node has learned (stored pairs, other rows, seen IDs) must stay
+			cn := live[r.Intn(len(live))]
+			w.n.VerifRemoveConnection(cn)
+			o := w.observe()
+			steps = append(steps, step{Kind: "lost", ID: cn, O: o})
+			kinds = append(kinds, "conn-lost")
+			im.Hist("event:connection-lost")
+			if !sameInfo(prev.Info, o.Info) || fmt.Sprint(prev.Seen) != fmt.Sprint(o.Seen) {
+				im.Violate(fmt.Sprintf("losing the connection to %s changed what the node had learned: stored pairs %v -> %v", cn, prev.Info, o.Info),
+					"connection-loss-forgets-knowledge", map[string]interface{}{"conns": conns, "step": i, "lost": cn})
+			}
+			var nl []string
+			for _, x := range live {
+				if x != cn {
+					nl = append(nl, x)
+				}
+			}
+			live = nl
+			delete(ownRow, cn)
 			prev = o
 			continue
 		}
@@ -491,13 +520,13 @@ func runHistory(c *Ctx, im *Impl, r *Rng, hlen int, script []scripted) (conns []
 					im.Violate("relay of a different update than the one received", "relay-other", rec)
 				}
 			}
-			for _, cn := range conns {
+			for _, cn := range live {
 				if cn != recv && got[cn] != 1 {
 					im.Violate(fmt.Sprintf("genuine update relayed %d times to %s", got[cn], cn), "relay-count", rec)
 				}
 			}
 		} else if ordinary && !bad && !seenBefore && notOlder && u.NodeID != "self" && u.NodeID != "" && !o.Down {
-			for _, cn := range conns {
+			for _, cn := range live {
 				if cn != recv {
 					im.Violate("a genuine new update was not relayed", "fresh-not-relayed", rec)
 					break
@@ -514,14 +543,14 @@ func runHistory(c *Ctx, im *Impl, r *Rng, hlen int, script []scripted) (conns []
 		// (O5) the node's own row (first-hand knowledge of its links) is never changed by a received update
 		if len(conns) > 0 {
 			own := o.Known["self"]
-			okRow := len(own) == len(conns)
-			for _, cn := range conns {
+			okRow := len(own) == len(ownRow)
+			for cn := range ownRow {
 				if own[cn] != 1 {
 					okRow = false
 				}
 			}
 			if !okRow {
-				im.Violate(fmt.Sprintf("a received update changed the node's own connection row: %v (connections %v)", own, conns), "own-row-changed", rec)
+				im.Violate(fmt.Sprintf("a received update changed the node's own connection row: %v (connections %v)", own, live), "own-row-changed", rec)
 			}
 		}
 		if ni, ok := o.Info[u.NodeID]; ok {
@@ -581,6 +610,8 @@ func emitCase(cf *CaseFile, conns []string, steps []step, kinds []string, label 
 	for i, s := range steps {
 		if s.Kind == "expire" {
 			hs = append(hs, fmt.Sprintf("(Expire %d, %s)", nm.id("upd:"+s.ID), coqObs(nm, s.O)))
+		} else if s.Kind == "lost" {
+			hs = append(hs, fmt.Sprintf("(Lost %d, %s)", nm.id(s.ID), coqObs(nm, s.O)))
 		} else {
 			hs = append(hs, fmt.Sprintf("(Recv %s %d, %s)", coqUpd(nm, s.U), nm.id(s.Recv), coqObs(nm, s.O)))
 		}
